@@ -6,7 +6,7 @@
     about extrema FAIL on the library (known finding K-C08-1), so no theorem is stated there. *)
 From Coq Require Import Reals ZArith List.
 From Coquelicot Require Import Coquelicot.
-From LP Require Import Num NumR C01_Model C01_Proofs C08_Model C08_Proofs C08_Proofs_Ctor C08_Proofs_Life.
+From LP Require Import Num NumR OrdLaws C01_Model C01_Proofs C01_Proofs_Global C08_Model C08_Proofs C08_Proofs_Ctor C08_Proofs_Life C08_Proofs_More.
 Import ListNotations.
 Local Open Scope R_scope.
 
@@ -182,3 +182,105 @@ Theorem C08_knot_scan_split (T : Type) (Ops : NumOps T) pick (o : itab) x1 x2 c1
   rbind (knot_scan Ops pick o x1 x2 c1 i m) (fun m' => knot_scan Ops pick o x1 x2 c2 (i + c1) m').
 Proof. exact (knot_scan_split Ops pick o x1 x2 c1 c2 i m). Qed.
 Print Assumptions C08_knot_scan_split.
+
+(** "all of these scale with the prefactor ..., of either sign, exactly as Interpolate does" -- the clauses not covered by
+    C08_local_extrema_scale: Integrate under c is c times Integrate under 1; Global_Minimum / Global_Maximum under c are c times
+    those under 1, exchanged for c <= 0 (1-D, then 2-D).  (non-vacuity: C08_example, C08_more_example) *)
+Theorem C08_prefactor_scaling xs ys : valid_table xs ys -> forall c,
+  (forall a b, nth 0 xs 0 <= a <= nth (length xs - 1) xs 0 -> nth 0 xs 0 <= b <= nth (length xs - 1) xs 0 ->
+     integral_value c xs ys a b = c * integral_value 1 xs ys a b) /\
+  (exists mn mx mn1 mx1,
+    global_minimum ROps (ptab c xs ys) = Ok mn /\ global_maximum ROps (ptab c xs ys) = Ok mx /\
+    global_minimum ROps (tab xs ys) = Ok mn1 /\ global_maximum ROps (tab xs ys) = Ok mx1 /\
+    (0 <= c -> mn = c * mn1 /\ mx = c * mx1) /\ (c <= 0 -> mn = c * mx1 /\ mx = c * mn1)).
+Proof. exact (prefactor_scaling_1d xs ys). Qed.
+Print Assumptions C08_prefactor_scaling.
+
+Theorem C08_prefactor_scaling_2d xs ys f c : valid_grid xs ys f ->
+  exists mn mx mn1 mx1,
+    global_minimum2 ROps (pgrid c xs ys f) = Ok mn /\ global_maximum2 ROps (pgrid c xs ys f) = Ok mx /\
+    global_minimum2 ROps (pgrid 1 xs ys f) = Ok mn1 /\ global_maximum2 ROps (pgrid 1 xs ys f) = Ok mx1 /\
+    (0 <= c -> mn = c * mn1 /\ mx = c * mx1) /\ (c <= 0 -> mn = c * mx1 /\ mx = c * mn1).
+Proof. exact (global_extrema2_scale xs ys f c). Qed.
+Print Assumptions C08_prefactor_scaling_2d.
+
+(** "Local_Minimum/Local_Maximum(x1,x2) equal the smallest and largest value the curve takes on [x1,x2] and Global_... over the
+    whole domain": hence a window encloses each of its sub-windows and the global extrema enclose every window -- however many
+    intervals either of them spans *)
+Theorem C08_extrema_nested xs ys : valid_table xs ys -> forall c x1 x2 u1 u2,
+  nth 0 xs 0 <= x1 <= nth (length xs - 1) xs 0 -> nth 0 xs 0 <= x2 <= nth (length xs - 1) xs 0 ->
+  x1 <= u1 -> u1 <= u2 -> u2 <= x2 ->
+  exists gmn mn mn' mx' mx gmx,
+    global_minimum ROps (ptab c xs ys) = Ok gmn /\ global_maximum ROps (ptab c xs ys) = Ok gmx /\
+    local_minimum ROps (ptab c xs ys) x1 x2 = Ok mn /\ local_maximum ROps (ptab c xs ys) x1 x2 = Ok mx /\
+    local_minimum ROps (ptab c xs ys) u1 u2 = Ok mn' /\ local_maximum ROps (ptab c xs ys) u1 u2 = Ok mx' /\
+    gmn <= mn /\ mn <= mn' /\ mn' <= mx' /\ mx' <= mx /\ mx <= gmx.
+Proof. exact (local_extrema_nested xs ys). Qed.
+Print Assumptions C08_extrema_nested.
+
+(** "all limit pairs (... in the extrapolation zone)": Locate accepts exactly the points of (x_0 - tolL, x_{N-1} + tolR), tolL / tolR =
+    1 % of the first / last interval (C01).  For EVERY accepted point Interpolate returns the curve, and for EVERY pair of accepted
+    limits, in either order, Integrate is the Riemann integral of that curve (outside the table: the continued first / last cubic) *)
+Theorem C08_accepted_limits xs ys : valid_table xs ys -> forall c,
+  (forall x, nth 0 xs 0 - tolL xs < x < nth (length xs - 1) xs 0 + tolR xs ->
+     interpolate ROps (ptab c xs ys) x = Ok (pcurve c xs ys x)) /\
+  (forall x1 x2, nth 0 xs 0 - tolL xs < x1 < nth (length xs - 1) xs 0 + tolR xs ->
+     nth 0 xs 0 - tolL xs < x2 < nth (length xs - 1) xs 0 + tolR xs ->
+     exists I, integrate ROps (ptab c xs ys) x1 x2 = Ok I /\ is_RInt (pcurve c xs ys) x1 x2 I).
+Proof. exact (accepted_limits xs ys). Qed.
+Print Assumptions C08_accepted_limits.
+
+(** ... so on the whole accepted range Integrate stays additive and antisymmetric, and its derivative in the upper limit is
+    Interpolate at every accepted point, the two end abscissae included.  (The clauses about the EXTREMA do fail in the zone: K-C08-1.) *)
+Theorem C08_integrate_laws_accepted_limits xs ys : valid_table xs ys -> forall c,
+  (forall a b d, nth 0 xs 0 - tolL xs < a < nth (length xs - 1) xs 0 + tolR xs ->
+     nth 0 xs 0 - tolL xs < b < nth (length xs - 1) xs 0 + tolR xs -> nth 0 xs 0 - tolL xs < d < nth (length xs - 1) xs 0 + tolR xs ->
+     integral_value c xs ys a b + integral_value c xs ys b d = integral_value c xs ys a d) /\
+  (forall a b, nth 0 xs 0 - tolL xs < a < nth (length xs - 1) xs 0 + tolR xs ->
+     nth 0 xs 0 - tolL xs < b < nth (length xs - 1) xs 0 + tolR xs ->
+     integral_value c xs ys b a = - integral_value c xs ys a b) /\
+  (forall a x, nth 0 xs 0 - tolL xs < a < nth (length xs - 1) xs 0 + tolR xs ->
+     nth 0 xs 0 - tolL xs < x < nth (length xs - 1) xs 0 + tolR xs ->
+     is_derive (fun t => integral_value c xs ys a t) x (pcurve c xs ys x)).
+Proof. exact (integrate_laws_accepted_limits xs ys). Qed.
+Print Assumptions C08_integrate_laws_accepted_limits.
+
+(** the error branches: with a limit that Locate does not accept Integrate and Local_Minimum / Local_Maximum terminate the
+    process; reversed limits of Local_Minimum / Local_Maximum do so for every object and every number type *)
+Theorem C08_rejected_limits xs ys : valid_table xs ys -> forall c x1 x2,
+  ~ (nth 0 xs 0 - tolL xs < x1 < nth (length xs - 1) xs 0 + tolR xs) \/
+  ~ (nth 0 xs 0 - tolL xs < x2 < nth (length xs - 1) xs 0 + tolR xs) ->
+  integrate ROps (ptab c xs ys) x1 x2 = Exit /\ forall pick, local_extremum ROps pick (ptab c xs ys) x1 x2 = Exit.
+Proof. exact (rejected_limits xs ys). Qed.
+Print Assumptions C08_rejected_limits.
+
+Theorem C08_local_extremum_reversed_limits (T : Type) (Ops : NumOps T) pick (o : itab) x1 x2 :
+  nltb Ops x2 x1 = true -> local_extremum Ops pick o x1 x2 = Exit.
+Proof. exact (local_extremum_reversed Ops pick o x1 x2). Qed.
+Print Assumptions C08_local_extremum_reversed_limits.
+
+(** Local_Minimum / Local_Maximum in floating point: for ANY number type whose comparisons form a total order (OrdLaws: IEEE
+    doubles without NaN, rounding included), any object [o] (any table length, any prefactor) and any limits, a returned value is
+    exactly the least / greatest of the candidates -- Interpolate at the two limits and prefactor * f_k for EVERY tabulated
+    abscissa k = i_1 .. i_2 + 1 that lies inside the limits: it is not above / below any of them and it is one of them.
+    [nle a b] is "not b < a"; [inside Ops o x1 x2 k v] says v = prefactor * f_k with x1 <= x_k <= x2.
+    (non-vacuity: C08_select_example) *)
+Theorem C08_local_minimum_select (T : Type) (Ops : NumOps T) : OrdLaws Ops -> forall (o : itab) x1 x2 r,
+  local_minimum Ops o x1 x2 = Ok r ->
+  exists fl fr i1 i2,
+    interpolate Ops o x1 = Ok fl /\ interpolate Ops o x2 = Ok fr /\ locate Ops o x1 = Ok i1 /\ locate Ops o x2 = Ok i2 /\
+    nle Ops r fl /\ nle Ops r fr /\
+    (forall k v, (i1 <= k <= S i2)%nat -> inside Ops o x1 x2 k v -> nle Ops r v) /\
+    (r = fl \/ r = fr \/ exists k, (i1 <= k <= S i2)%nat /\ inside Ops o x1 x2 k r).
+Proof. exact (local_minimum_select Ops). Qed.
+Print Assumptions C08_local_minimum_select.
+
+Theorem C08_local_maximum_select (T : Type) (Ops : NumOps T) : OrdLaws Ops -> forall (o : itab) x1 x2 r,
+  local_maximum Ops o x1 x2 = Ok r ->
+  exists fl fr i1 i2,
+    interpolate Ops o x1 = Ok fl /\ interpolate Ops o x2 = Ok fr /\ locate Ops o x1 = Ok i1 /\ locate Ops o x2 = Ok i2 /\
+    nle Ops fl r /\ nle Ops fr r /\
+    (forall k v, (i1 <= k <= S i2)%nat -> inside Ops o x1 x2 k v -> nle Ops v r) /\
+    (r = fl \/ r = fr \/ exists k, (i1 <= k <= S i2)%nat /\ inside Ops o x1 x2 k r).
+Proof. exact (local_maximum_select Ops). Qed.
+Print Assumptions C08_local_maximum_select.
